@@ -1197,7 +1197,11 @@ class t2grid(object):
                     orignames = names[::-1]
                     if orignames in self.connection:
                         con = self.connection[orignames]
+                        # reverse connection, together with its orientation-dependent data:
                         con.block = con.block[::-1]
+                        con.distance = con.distance[::-1]
+                        con.nad1, con.nad2 = con.nad2, con.nad1
+                        if con.dircos is not None: con.dircos = -con.dircos
                         for blk in con.block:
                             blk.connection_name.remove(orignames)
                             blk.connection_name.add(names)
